@@ -235,12 +235,13 @@ def run(tier, seed):
         b, p, r = sched[i]; s = seed * 1000 + r
         rep.traces += 1; contended[p["contended"]] += 1
         common = {"p": "C14", "g": {"k": p["g"]}, "sc": "d", "plan": p["id"], "contended": p["contended"], "shape": p["shape"], "build": b,
-                  "launch": i, "seed": s, "_module": "StaticInitTrace"}
+                  "launch": i, "seed": s, "_module": "StaticInitTrace", "st": "contended=%s,%s,%s" % (p["contended"], p["shape"], b)}
         nops = sum(len(t) for t in p["threads"])
         if report is not None:
             races += 1
             d = {"e": "race"}; d.update(common); d["rc"] = rc; d["threads"] = p["threads"]
-            d["report"] = [x for x in report.splitlines() if x.strip()][:40]
+            rl = [x for x in report.splitlines() if x.strip()]
+            d["report"] = [x[:300] for x in rl[:30]] + [x[:300] for x in rl[30:] if x.startswith("SUMMARY")][:3]
             events.append(json.dumps(d))
         if rc not in (0, 66) or len(lines) != nops:
             crashes += 1
@@ -253,9 +254,9 @@ def run(tier, seed):
             e["ref"] = ref.get((b, s, e["op"]), [])
             if e.get("i") == 1: first.append((e.get("t0", 0), e.get("t1", 0)))
             events.append(json.dumps(e))
-        # evidence that the first uses really overlapped in time (not a verdict): some thread started its first
-        # operation before another one had finished its first operation
-        if len(first) > 1 and max(a for a, _ in first) < max(z for _, z in first) and sorted(first)[1][0] < min(z for _, z in first):
+        # evidence that first operations really overlapped in time (not a verdict): the second thread to start
+        # its first operation did so before the earliest first operation had returned
+        if len(first) > 1 and sorted(first)[1][0] < min(z for _, z in first):
             overlap[b] += 1
     rep.extra["launches"] = {"total": len(sched), "tsan": sum(1 for x in sched if x[0] == "tsan"), "plain": sum(1 for x in sched if x[0] == "plain"),
                              "threads_per_launch": 8, "wall_s": round(time.time() - t0, 1), "tsan_reports": races, "crashes": crashes,
